@@ -22,6 +22,7 @@ ASSUMPTIONS = [
     "reduced-precision communication is judged by replica bit-equality plus |shard - resynchronised twin| <= 4*u_comm*(|update| resp. |W|) elementwise",
 ]
 TIMEOUT = c07.TIMEOUT
+CONFIRM_BY_RERUN = True  # ranks are threads here: an alarm must reproduce in a fresh process (vf/main.py)
 ANCHORS = {
     "distributed_shampoo/utils/shampoo_fully_shard_distributor.py": ["FullyShardDistributor._get_params_or_grads", "FullyShardDistributor._construct_local_block_info_list"],
     "distributed_shampoo/utils/shampoo_hybrid_shard_distributor.py": ["HybridShardDistributor.__init__", "HybridShardDistributor._get_params_or_grads", "HybridShardDistributor.update_params", "HybridShardDistributor.merge_and_block_gradients", "HybridShardDistributor._allocate_zeros_distributed_tensor"],
